@@ -36,7 +36,7 @@ import (
 //   returnto xURL <allow>                             validateReturnTo        (<allow> = - | xA,xB,...)
 //   cfg xPREFIX <allow> xSIGNKEY <disc 0|1>           real HttpServer + PKCE + fake IdP (httptest)
 //   page xTARGET <tok: -|xTOK> <expired 0|1>          raw "GET TARGET" with Accept: text/html (early return / login redirect)
-//   callback xERR xCODE <state: $|xS> <cookie> <idp>  GET {prefix}/_oauth/callback
+//   callback xERR xCODE <state: $|~|xS> <cookie> <idp>  GET {prefix}/_oauth/callback ($ = state of the last login, ~ = that state with one bit flipped)
 //
 //   <cookie> = - | xLITERAL | $ | $/<mut> | craft/<t>/<ver>/xV/xS/xU/xR/<key: own|xKEY>/<mut>
 //   <t>      = d<delta seconds from now> | a<absolute uint64>
@@ -937,7 +937,14 @@ func c27LoginOracle(c *Case, env *c27Env, l, ck, loc string, before, after int64
 func c27Callback(c *Case, env *c27Env, l string, f []string) {
 	errP, code := UnXS(f[1]), UnXS(f[2])
 	state := env.lastState
-	if f[3] != "$" {
+	if f[3] == "~" {
+		// the packed state with its last byte changed: same length, different value
+		if n := len(state); n > 0 {
+			b := []byte(state)
+			b[n-1] ^= 1
+			state = string(b)
+		}
+	} else if f[3] != "$" {
 		state = UnXS(f[3])
 	}
 	idpOK, token := false, ""
